@@ -81,7 +81,7 @@ Lemma parse_config_ok r c : parse_config (Decoded r) = Ok c ->
   type_error (r_cap_live r) = false /\ type_error (r_cap_non r) = false /\
   type_error (r_workers r) = false /\ type_error (r_public r) = false /\
   c_dur_live c = r_dur_live r /\ c_dur_non c = r_dur_non r /\
-  c_cap_live c = int_of (r_cap_live r) /\ c_cap_non c = int_of (r_cap_non r).
+  c_cap_live c = z_of (r_cap_live r) /\ c_cap_non c = z_of (r_cap_non r).
 Proof.
   cbn. destruct (type_error (r_cap_live r)) eqn:E1; [discriminate|].
   destruct (type_error (r_cap_non r)) eqn:E2; [discriminate|].
